@@ -71,9 +71,12 @@ func campaignC16(p *Parser, req *Request, resp *Response) {
 	if ref == 0 {
 		ref = 3000
 	}
-	hasStats := p.Has["Statistics"]
+	// without the Statistics option the parser's own default Stats value is the
+	// clock and the tick stamps are unavailable: the weaker oracle applies
+	countKnown := p.Has["Statistics"] && req.Call.Opts.Stats // bounded runs report their ExprCnt
+	ticksKnown := countKnown                                 // reference events carry tick stamps
 	call := req.Call
-	call.Opts.Stats = hasStats
+	call.Opts.Stats = countKnown
 	call.Opts.MaxExpr = ref
 	recoverOn := call.Opts.Recover == nil || *call.Opts.Recover
 
@@ -112,22 +115,54 @@ func campaignC16(p *Parser, req *Request, resp *Response) {
 		refExhausted = true
 	}
 	N := R.ExprCnt // expressions the reference evaluated (0 when the variant has no Statistics)
+	tickOf := make([]uint64, len(R.Events))
+	for i := range R.Events {
+		tickOf[i] = R.Events[i].Tick
+	}
+	if !countKnown && p.Has["Statistics"] {
+		// the caller did not ask for statistics: the parser's own default Stats
+		// value is the clock. Calibrate the tick of every reference event with a
+		// twin run that only adds the Statistics option.
+		cs := call
+		cs.Opts.Stats = true
+		Rs := p.Solo(&cs, req.Pool, int64(ref+2)*C)
+		resp.Runs++
+		okH, _ := sameStrings(historyKeys(Rs), historyKeys(R))
+		okE, _ := sameStrings(errMsgs(Rs), errMsgs(R))
+		if !Rs.Aborted && !Rs.Overflow && okH && okE && Rs.Value == R.Value {
+			ticksKnown = true
+			N = Rs.ExprCnt
+			for i := range Rs.Events {
+				tickOf[i] = Rs.Events[i].Tick
+			}
+			resp.stat("ticks_from_statistics_twin", 1)
+		} else {
+			// whether Statistics may change a result is C06's subject, not ours
+			resp.stat("unclaimed_divergence_statistics_twin", 1)
+		}
+	}
 	if refExhausted {
 		resp.stat("reference_exhausted_budget", 1)
 	}
-	if hasStats && !refExhausted && R.ExprCnt > 0 {
+	if countKnown && !refExhausted && R.ExprCnt > 0 {
 		resp.statMax("max_steps_per_expr", int(R.Steps/int64(R.ExprCnt)))
 	}
 	refHist := historyKeys(R)
 	refErrs := errMsgs(R)
+	resp.stat("reentrant_parses_in_reference_runs", R.Nested)
+	if R.Nested > 0 && !countKnown && ticksKnown {
+		resp.stat("cases_reentrant_and_default_stats", 1)
+	}
 
 	// which budgets
 	var budgets []uint64
-	if len(req.Budgets) > 0 {
+	if len(req.Carries) > 0 {
+		// replay of a reused-Stats violation: only that sub-check runs
+	} else if len(req.Budgets) > 0 {
 		budgets = req.Budgets
 	} else {
 		top := N + 1
-		if !hasStats || refExhausted {
+		if !ticksKnown || refExhausted {
 			top = ref
 		}
 		enum := uint64(req.EnumMax)
@@ -175,11 +210,11 @@ func campaignC16(p *Parser, req *Request, resp *Response) {
 			}
 		}
 		escapedBudget := r.Escaped != "" && strings.Contains(r.Escaped, maxExprMsg)
-		if hasStats && r.ExprCnt > n+1 {
+		if countKnown && r.ExprCnt > n+1 {
 			viol(n, "budget-exceeded", fmt.Sprintf("%d expressions were evaluated", r.ExprCnt), nil)
 		}
-		mustExhaust := hasStats && !refExhausted && n < N || refExhausted && n < ref
-		mustEqual := hasStats && !refExhausted && n >= N
+		mustExhaust := ticksKnown && !refExhausted && n < N || refExhausted && n < ref
+		mustEqual := ticksKnown && !refExhausted && n >= N
 		if escapedBudget {
 			resp.stat("budget_panic_escaped", 1)
 			viol(n, "budget-panic-escaped", "the budget exhaustion reached the caller as a panic instead of being reported as an error: "+r.Escaped, nil)
@@ -234,10 +269,10 @@ func campaignC16(p *Parser, req *Request, resp *Response) {
 			}
 		}
 		// history: exactly the reference events that happened up to tick n
-		if hasStats {
+		if ticksKnown {
 			var want []string
 			for i := range R.Events {
-				if R.Events[i].Tick <= n {
+				if tickOf[i] <= n {
 					want = append(want, refHist[i])
 				}
 			}
@@ -259,6 +294,41 @@ func campaignC16(p *Parser, req *Request, resp *Response) {
 				resp.stat("prefix_checked", 1)
 			}
 			prevHist, prevN = hist, n
+		}
+	}
+	// a Stats value reused from an earlier parse: its count is already beyond the
+	// budget; this parse must still not evaluate more than n expressions
+	runCarry := func(n, carry uint64) bool {
+		c := call
+		c.Opts.MaxExpr = n
+		c.Opts.StatsCarry = carry
+		r := p.Solo(&c, req.Pool, int64(n+2)*C)
+		resp.Runs++
+		resp.stat("reused_stats_runs", 1)
+		if r.Aborted {
+			viol(n, "not-bounded", fmt.Sprintf("with a reused Stats value (ExprCnt already %d) the parse did not return within %d steps", carry, int64(n+2)*C), map[string]any{"stats_carry": carry})
+			resp.Violations[len(resp.Violations)-1].Carries = []uint64{carry}
+			return false
+		}
+		if r.ExprCnt > carry && r.ExprCnt-carry > n+1 {
+			viol(n, "budget-exceeded", fmt.Sprintf("with a reused Stats value (ExprCnt already %d) %d expressions were evaluated", carry, r.ExprCnt-carry), map[string]any{"stats_carry": carry})
+			resp.Violations[len(resp.Violations)-1].Carries = []uint64{carry}
+			return false
+		}
+		return true
+	}
+	if len(req.Carries) > 0 {
+		for i, carry := range req.Carries {
+			if i < len(req.Budgets) {
+				runCarry(req.Budgets[i], carry)
+			}
+		}
+	} else if countKnown && !refExhausted && N >= 4 && len(req.Budgets) == 0 {
+		for k := 0; k < 3; k++ {
+			n := 1 + uint64(simrt.Choose(int(N-2)))
+			if !runCarry(n, n+1+uint64(simrt.Choose(40))) {
+				break
+			}
 		}
 	}
 	if req.Full {
